@@ -158,4 +158,10 @@ theorem run_frames (frames : List Frame) (tail : List Step) :
       rw [h]
       cases allBytes r <;> simp [List.append_assoc]
 
+theorem putObjectProg_eq (c : Cfg) :
+    putObjectProg c = .create :: .adopt :: (c.frames.map .frame ++
+      ([.flush, .check c.checksumsEqual, .mkdirs, .rename c.renameFails] ++
+        (if c.hasMeta then [.saveMeta c.metaFails] else []) ++ [.saveInfo c.infoFails])) := by
+  simp [putObjectProg, List.append_assoc]
+
 end S3V.FsWrite
